@@ -10,6 +10,8 @@ clause -> what is compared
                        the full list; as list and as generator; under EVERY iteration order of the
                        internal seed set (set-order seam: all k! for k <= 4 distinct seeds)
   empty collection     yields nothing
+  interleaving         two traversals of one lattice consumed alternately (every schedule with <= 2
+                       switches, and strict alternation) each yield what they yield alone
 """
 
 import itertools
@@ -26,11 +28,25 @@ ASSUMPTIONS = ['the iteration order of the id-hashed seed set is owned through t
                'reported as a warning, never as a violation)',
                'rank order is judged on the members\' own index/dindex attributes (C06 decides '
                'that these are the shortlex/longlex ranks)']
-HITS = ('hit_diamond', 'hit_comparable_seeds', 'hit_repeated_seeds', 'hit_seam')
+HITS = ('hit_diamond', 'hit_comparable_seeds', 'hit_repeated_seeds', 'hit_seam', 'hit_interleaved')
 BUDGET = {'quick': 240, 'thorough': 3000}
 
 
 TRIPLE_LIMIT = [8]   # quick: 6
+
+
+def interleavings(n1, n2):
+    """Schedules (sequences of 0/1 = which generator advances) for two traversals
+    of n1 and n2 items: strict alternation, and every schedule made of at most three
+    runs (<= 2 switches) that starts with either generator; the remainder of each
+    generator is drained afterwards in order 0, 1."""
+    out = {tuple(w for pair in zip([0] * n1, [1] * n2) for w in pair)}
+    for first in (0, 1):
+        a, b = (n1, n2) if first == 0 else (n2, n1)
+        for x in range(1, a + 1):
+            for y in range(1, b + 1):
+                out.add((first,) * x + (1 - first,) * y)
+    return sorted(out)
 
 
 def shards(tier):
@@ -69,6 +85,28 @@ def check_case(case, ctr):
             return V
         if not judge(list(c.downset()), downs[i], 'dindex', 'downset', concept=i):
             return V
+    # interleaved traversals: two lazy traversals of the same lattice alive at the same time
+    # must each yield what they yield alone (all schedules with <= 2 switches + strict alternation)
+    if k <= 8 and not V and case.variant == 'fresh' and case.labeling == 'asc':
+        solo_up = {i: [pos(x) for x in al[i].upset()] for i in range(k)}
+        solo_dn = {i: [pos(x) for x in al[i].downset()] for i in range(k)}
+        for i in range(k):
+            for mk, solo, name, other in ((lambda c: c.upset(), solo_up, 'upset', ref.bottom),
+                                          (lambda c: c.downset(), solo_dn, 'downset', ref.top)):
+                for j in {i, other}:
+                    for sched in interleavings(len(solo[i]), len(solo[j])):
+                        g1, g2 = mk(al[i]), mk(al[j])
+                        out1, out2 = [], []
+                        for who in sched:
+                            (out1 if who == 0 else out2).append(pos(next(g1 if who == 0 else g2)))
+                        out1 += [pos(x) for x in g1]
+                        out2 += [pos(x) for x in g2]
+                        ctr['calls'] += 2
+                        ctr['hit_interleaved'] += 1
+                        if out1 != solo[i] or out2 != solo[j]:
+                            bad(name + '-interleaved', [solo[i], solo[j]], [out1, out2],
+                                concepts=[i, j], schedule=''.join(map(str, sched)))
+                            return V
     # diamonds: two different maximal chains between some pair
     if any(len(ref.upper_covers(i)) > 1 for i in range(k)) and k > 3:
         ctr['hit_diamond'] += 1
@@ -76,6 +114,11 @@ def check_case(case, ctr):
     colls = [()] + [(i,) for i in range(k)] + list(itertools.product(range(k), repeat=2))
     if k <= TRIPLE_LIMIT[0]:
         colls += list(itertools.product(range(k), repeat=3))
+    elif k <= 8:
+        # quick tier, 7-8 concepts: the triples on which the reduction to extremal seeds
+        # has real work to do are the antichains
+        colls += [t for t in itertools.combinations(range(k), 3)
+                  if not any(ref.leq[a][b] or ref.leq[b][a] for a, b in itertools.combinations(t, 2))]
     colls.append(tuple(range(k)))
     hits0 = env.SeamSet.hits
     for coll in colls:
